@@ -1,6 +1,7 @@
 """C15 — Identifier-indexed lists stay coherent under every list operation."""
 from contracts import c15_dictlist  # noqa  (registers the contracts)
 from contracts import c15_get_by_any as GBA
+from contracts import c15_query as Q
 from contracts.common import REG
 from bcc import dictlist_native as N
 
@@ -21,6 +22,7 @@ OPS = {
     "DictList.__setstate__": ["pickle"], "DictList._extend_nocheck": ["getitem", "query"], "DictList.__init__": ["init_from", "plus"],
     "DictList.__isub__": ["isub"], "DictList.__sub__": ["sub"], "DictList.index": ["remove", "isub"],
     "DictList.get_by_id": ["get_by_any"], "DictList._check": ["append", "insert", "setitem"],
+    "DictList.query": ["query"], "DictList.__reduce__": ["pickle"], "DictList.__getstate__": ["pickle"],
 }
 
 
@@ -41,13 +43,42 @@ def run(rep):
         "KeyError / TypeError; lists of ints / strs / objects whose items are all acceptable): a NEW list of the look-ups in order, "
         "nothing written; an object item is passed through when its IDENTIFIER is in the index, so a foreign object carrying a "
         "member's id comes back although it is not a member (finding; the member clause is proved under the hypothesis that the "
-        "object is the member registered under its id). Bounded stand-in (not counted as proved): exhaustive operation histories on the real "
-        "class next to a plain-list oracle; it also covers the operations not under contract (slices with steps, masks, "
-        "query, get_by_any with lists that raise, pickle, -, -=) and cross-checks the list/dict axioms against CPython.")
+        "object is the member registered under its id). "
+        "query (contracts/c15_query.py; six cases: callable / pattern string / compiled pattern x attribute None / given): a NEW well-formed "
+        "DictList, never self, holding exactly the selected elements of self in their order (ghost index maps of the filtered "
+        "comprehension, and `found in the result by identifier <=> selected`), self unchanged; the generator is materialised and the "
+        "proved _extend_nocheck contract applied with its precondition obliged at the call site; stated assumptions: the search "
+        "function is a pure predicate, every element has the attribute and (pattern cases) its value is a str (a None value makes "
+        "query raise TypeError natively, self untouched), the pattern string is valid, re.compile / findall as assumed uninterpreted "
+        "functions. list_attr: a new plain list of getattr(self[j], attribute) in order. Pickling: __getstate__ / __reduce__ hand "
+        "pickle (DictList, (), {'_dict': the index}, an iterator over the elements in order); round-trip lemmas from the very "
+        "post-conditions of __init__ / extend / append / __setstate__ (invariant over the batches): unpickling copies that keep their "
+        "identifiers gives a well-formed list with the same identifiers in the same order and the same index, no step raises "
+        "(assumed: pickle's reduce protocol for list items, an unpickled Object keeps its id). __dir__: dir(DictList) + '_dict' + "
+        "every identifier of the index. Slice assignment dl[a:b] = y (second contract of __setitem__ for a simple slice with any bounds "
+        "and a list y that is not self; loop invariant over the placeholder loop): with pairwise different identifiers none of which "
+        "is in the index, WF again and the sequence self[:lo] + y + self[max(hi, lo):]; otherwise - also for the identifier of an "
+        "element the slice would have replaced - ValueError with list and index unchanged; list slice assignment itself is an assumed "
+        "splice axiom (cross-checked against CPython); __setslice__ by that contract (with __getslice__ / __delslice__ dead code "
+        "under Python 3: slicing syntax never calls them). Selection by a boolean mask dl[[True, False, ...]] (third contract of "
+        "__getitem__, the technique of query): a full-length mask gives a NEW well-formed DictList of exactly the elements whose entry "
+        "is True, in order, self unchanged; an empty mask on an empty list raises IndexError, a list of another length TypeError "
+        "(assumed CPython), nothing changed. OUTSIDE the claim, inherited from list and not overridden: clear(), *= (and "
+        "list.__init__ on an existing DictList) desynchronise the index (native reproduction in the module docstring); the method "
+        "copy(), * and reversed() return plain lists / iterators without an index. Bounded stand-in (not counted as proved): exhaustive operation histories on the real "
+        "class next to a plain-list oracle; it also covers the operations not under contract (slices with steps, slice assignment from a non-list iterable, "
+        "get_by_any with lists that raise, the pickle codec itself) and cross-checks the list/dict axioms against CPython.")
     rep.trusted += ["CPython list/dict/set built-ins as axiomatised in pyvc/builtins.py",
                     "z3 5.1 / cvc5 1.0.3 soundness", "pyvc executor (guarded by canaries and native cross-check)"]
     rep.add_pyvc(REG, KEYS, fallback=fallback)
     rep.add_pyvc(REG, GBA.KEYS, hooks=GBA.HOOKS, fallback=fallback)
+    rep.add_pyvc(REG, Q.KEYS, hooks=Q.HOOKS, fallback=fallback)
+    rep.add_lemmas(Q.lemmas())
+    rep.trusted += ["re.compile / Pattern.findall, getattr with a symbolic attribute name, a user search function: uninterpreted pure "
+                    "functions (contracts/c15_query.py)", "dir(cls): a new list of strings", "list.__getitem__(l, <list>) raises TypeError",
+                    "list.__setitem__(l, slice, xs) for a simple slice: the splice axiom of contracts/c15_query.py (cross-checked natively)",
+                    "pickle's reduce protocol for list items (cls(*args), extend per batch / append, then __setstate__); an unpickled "
+                    "Object keeps its identifier"]
     depth = 2 if rep.tier == "quick" else 3
     ev, nt, fails, samples = N.explore_parallel(depth=depth, rich=True)
     rep.add_bounded("dictlist-histories", ev, nt, fails, samples,
